@@ -89,6 +89,24 @@ func c01Paths(maxSeg int) []string {
 		"/sub/../../../out/secret.txt", "/***DVD***/../../root-other", "/***PS3***/../..", "/***DVD***/..", "/PS3ISO/../../PS3ISO/g.iso", "/../PS3ISO/g.iso", "../PS3ISO/g.iso",
 		"/***DVD***/..%2froot-other", "/***DVD***/%2e%2e%2froot-other", "/***PS3***/sub/%2e%2e/%2e%2e/root-other", "/%2e%2e/root-other/secret.txt", "/..%2f..%2fsecret.txt", "/***DVD***/..%5croot-other", "/***DVD***/%2E%2E/root-other/",
 		"/w/../../w/x", "/./../root-other/./secret.txt", "/root-other/../../root-other/secret.txt", "/..", "..", "/../", "/../root", "/../root/a.txt", "/../rootx/secret.txt")
+	// long paths (the protocol allows 65535 bytes): harmless padding in front of, between and behind '..' elements, so
+	// that a length threshold anywhere in the clamp (PATH_MAX, a fixed buffer, a 16-bit length) is crossed
+	for _, total := range []int{255, 256, 1023, 1025, 4090, 4096, 4097, 4200, 8192, 32767, 32769, 65000, 65535} {
+		for _, pad := range []string{"./", "x/../", "//"} {
+			for _, tail := range []string{"../root-other/secret.txt", "../rootx/secret.txt", "../../out/secret.txt", "sub/../../root-other/sub"} {
+				n := (total - 1 - len(tail)) / len(pad)
+				if n < 0 {
+					continue
+				}
+				out = append(out, "/"+strings.Repeat(pad, n)+tail)
+			}
+		}
+		// the '..' first, the padding behind it
+		n := (total - len("/../root-other/") - len("secret.txt")) / 2
+		if n >= 0 {
+			out = append(out, "/../root-other/"+strings.Repeat("./", n)+"secret.txt")
+		}
+	}
 	// '..' elements decorated with one byte that a later clean-up stage (log sanitising, trimming, charset
 	// conversion) might drop after the clamp has run: as sent they are ordinary (non-existent) names under the root
 	for _, c := range []string{"\x01", "\t", "\n", "\r", "\x1b", "\x7f", " ", "\x80", "\xff", "\u200b", "\ufeff"} {
@@ -126,7 +144,7 @@ func failureForm(op uint16, resp []byte) bool {
 func TestC01(t *testing.T) {
 	r := NewReporter(t)
 	defer r.Done()
-	r.Rule("path strings = optional leading '/' x all sequences of <= N segments from {'', '.', '..', sub, <root>-other, <root>, out, ***DVD***, ***PS3***, PS3ISO, g.iso, secret.txt, CLOSEFILE} + specials (NUL, 65534-byte path, 300-deep ../, backslashes) x 8 path-carrying opcodes x writing on/off x root spelling x preceding request; oracles: (O1) every leaf filesystem operation stays under the root, (O2) sentinel tree outside the root unchanged, (O3) byte-identical responses against a twin world whose outside is empty, (O4) response = model answer for the clamped path or the failure form; distinct by (path, mode, spelling, preceding request)")
+	r.Rule("path strings = optional leading '/' x all sequences of <= N segments from {'', '.', '..', sub, <root>-other, <root>, out, ***DVD***, ***PS3***, PS3ISO, g.iso, secret.txt, CLOSEFILE} + specials (NUL, 65534-byte path, 300-deep ../, backslashes, '..' decorated with control/space/invalid bytes, paths padded with './', 'x/../', '//' to 255..65535 bytes) x 8 path-carrying opcodes x writing on/off x root spelling x preceding request; oracles: (O1) every leaf filesystem operation stays under the root, (O2) sentinel tree outside the root unchanged, (O3) byte-identical responses against a twin world whose outside is empty, (O4) response = model answer for the clamped path or the failure form; distinct by (path, mode, spelling, preceding request)")
 	A := buildC01World(t, true)
 	B := buildC01World(t, false)
 	defer A.w.Cleanup()
